@@ -3,6 +3,7 @@
 use crate::exec::Toks;
 use crate::util::*;
 use neurons::random::Generator;
+use neurons::tensor::{Data, Shape};
 use rayon::prelude::*;
 
 pub const M: u64 = (1u64 << 31) - 1;
@@ -53,6 +54,45 @@ pub fn exec(ctx: &mut Ctx, op: &str, p: &mut Toks) -> String {
         "rnd.tof32" => {
             let n = p.u64();
             format!("ok {}", (n as f32) as u64)
+        }
+        "rnd.tensor" => {
+            let sh = p.shape();
+            let lo = p.flt();
+            let hi = p.flt();
+            let res = try_run(|| neurons::tensor::Tensor::random(sh.clone(), lo, hi));
+            let input = format!("Tensor::random({}, {:e}, {:e})", shape_tok(&sh), lo, hi);
+            match res {
+                Some(t) => {
+                    // the rendered tensor starts with the recorded shape and the actual nested extents
+                    let full = rt(&t);
+                    let flat = crate::ops::tensor::flat_any(&t);
+                    let toks: Vec<&str> = full.split_whitespace().collect();
+                    let skel = toks[..toks.len().saturating_sub(flat.len())].join(" ");
+                    let in_range = flat.iter().all(|v| *v >= lo && *v <= hi);
+                    let want: Vec<usize> = match &sh { Shape::Single(n) => vec![*n], Shape::Double(a, b) => vec![*a, *b], Shape::Triple(a, b, c) => vec![*a, *b, *c], Shape::Quadruple(a, b, c, d) => vec![*a, *b, *c, *d], _ => vec![] };
+                    let uniform = |lens: Vec<usize>, w: usize| lens.iter().all(|l| *l == w);
+                    let extents_ok = match &t.data {
+                        Data::Single(v) => v.len() == want[0],
+                        Data::Double(v) => v.len() == want[0] && uniform(v.iter().map(|r| r.len()).collect(), want[1]),
+                        Data::Triple(v) => v.len() == want[0] && uniform(v.iter().map(|m| m.len()).collect(), want[1])
+                            && uniform(v.iter().flat_map(|m| m.iter().map(|r| r.len())).collect(), want[2]),
+                        Data::Quadruple(v) => v.len() == want[0] && uniform(v.iter().map(|m| m.len()).collect(), want[1])
+                            && uniform(v.iter().flat_map(|m| m.iter().map(|r| r.len())).collect(), want[2])
+                            && uniform(v.iter().flat_map(|m| m.iter().flat_map(|r| r.iter().map(|x| x.len()))).collect(), want[3]),
+                        _ => false,
+                    };
+                    ctx.oracle(t.shape == sh && extents_ok && flat.len() == want.iter().product::<usize>(), "random-tensor-shape",
+                        "a randomly initialised tensor must have the requested shape: recorded shape, nested extents at every level and element count",
+                        input.clone(), skel.clone(), format!("{} with extents {:?}", shape_tok(&sh), want));
+                    ctx.oracle(in_range, "random-tensor-out-of-range", "every element of a randomly initialised tensor must lie in [min, max]",
+                        input, format!("{:?}", flat.iter().cloned().fold(f32::NAN, f32::max)), format!("all in [{:e}, {:e}]", lo, hi));
+                    format!("ok {} inrange {}", skel, in_range as u8)
+                }
+                None => {
+                    ctx.oracle(false, "random-tensor-panics", "Tensor::random must not panic for ranks 1-4", input, "panic".into(), "a tensor".into());
+                    "err index".to_string()
+                }
+            }
         }
         "rnd.generate" => {
             let seed = p.u64();
